@@ -329,4 +329,81 @@ def k4(ctx, kr):
     kr.exhaustive = True
     kr.outside = ['magnitudes >= 2^40 (the i128 conversion limit is a C04 matter)']
 
-KERNELS = [k1, k4, k3]
+
+# ---------------------------------------------------------------------------------------------- K5 verdict of the whole analysis on template shapes vs the documented rules
+RULE_CODES = {'P%04d' % i for i in range(3, 23)} | {'P0029'}
+
+def _k5_job(job):
+    name, prefixes = job
+    from . import C10 as K10, tplcommon as TP
+    from .c02_templates import VERDICT_TEMPLATES
+    ctx = _CTX; part = Part(); spec = VERDICT_TEMPLATES[name]; tpl = spec['tpl']
+    P = ctx.program()
+    k_parse = P.find_fn('ironplc-parser', 'parse_program'); k_an = P.find_fn('ironplc-analyzer', 'stages::analyze')
+    k_opt = TP.parse_opts(P)
+    holder = {}; st = {}
+    M = Machine(P, stubs=K10.dyn_lexer_stubs(ctx, holder), max_steps=800_000_000)
+    M.toposort_deterministic = True
+    def entry(M):
+        choice, texts, text = TP.choose_shape(M, tpl)
+        st['choice'] = choice; st['texts'] = texts; st['src'] = text
+        fid = Ref(Cell(Agg('FileId', [Str('f.st')])))
+        opts = Ref(Cell(M.call_fn(k_opt[0], []) if k_opt else Agg('ParseOptions', [False])))
+        r = M.call_fn(k_parse, [Ref(Cell(Str(text))), fid, opts])
+        if r.disc != 0: return ('rejected', None)
+        a = M.call_fn(k_an, [Ref(Cell(VecV([Ref(Cell(r.f[0]))])))])
+        return ('ok', set()) if a.disc == 0 else ('diagnosed', TP.diag_codes(M, P, a, _code_of))
+    def on_path(M, pr):
+        part.paths += 1
+        src = st.get('src'); choice = st.get('choice')
+        if pr.inconclusive: part.inconc('%s: %s' % (name, pr.inconclusive)); return
+        if pr.panic: part.inconc('%s: panic (a C04 matter): %s' % (name, pr.panic.msg[:60])); return
+        kind, got = pr.result
+        if kind == 'rejected': return                      # not a parseable unit: outside the property
+        part.nontrivial += 1
+        want = spec['ref'](st['texts'])
+        if want is None or 'P9999' in got and not (got & RULE_CODES) and want: 
+            # the documentation does not decide the shape, or the analyzer declares the construct unsupported
+            if want is None: return
+        lab = TP.shape_label(tpl, choice)
+        bad = None
+        if not want and (got & RULE_CODES): bad = ('spurious', 'a unit that satisfies every documented rule is rejected with %s' % sorted(got & RULE_CODES))
+        elif want and not (want <= got):
+            if 'P9999' in got and len(got) == 1: return     # explicit "not implemented" answer: outside C02
+            bad = ('missed', 'the unit violates the rule with code %s but analysis reports %s' % (sorted(want), sorted(got) or 'success'))
+        if bad:
+            part.add('C02/K5/%s/%s/%s' % (name, bad[0], lab), 'template %s, shape %s: %s' % (name, lab, bad[1]), {'source': src, 'reported': sorted(got), 'documented': sorted(want)}, ('verdict', (src, sorted(want))))
+        elif len(part.validate) < 1 and want: part.validate.append(('verdict', (src, sorted(want))))
+        if len(part.samples) < 1: part.samples.append({'template': name, 'shape': lab, 'reported': sorted(got), 'documented': sorted(want)})
+    M.explore(entry, on_path, prefixes=prefixes)
+    part.queries += M.stats['smt']; part.encoded = set(M.encoded); part.models = set(M.models_used)
+    return part
+
+@replay_factory('verdict')
+def _replay_verdict(src, want):
+    def rp(ctx):
+        r = ctx.replay({'cmd': 'analyze', 'sources': [src]})
+        if 'panic' in r: return None, r
+        if 'parse_error' in r: return None, r
+        codes = set(d['code'] for d in r.get('diagnostics', []))
+        if not want: bad = bool(codes & RULE_CODES)
+        else: bad = not (set(want) <= codes) and codes != {'P9999'}
+        return bad, {'source': src[-400:], 'codes': sorted(codes), 'documented': want}
+    return rp
+
+@kernel('K5 rules.template_verdict_vs_documentation')
+def k5(ctx, kr):
+    global _CTX
+    _CTX = ctx
+    from . import tplcommon as TP
+    from .c02_templates import VERDICT_TEMPLATES as VT
+    n = sum(TP.nshapes(VT[t]['tpl']) for t in VT)
+    kr.bounds = ('parse_program followed by stages::analyze (type resolution and every rule) on %d shapes of %d source templates (%s); per shape the verdict the documented rules require is a reference predicate over the selector texts: '
+                 'a violated rule must be reported with its code, a conforming unit must not be rejected with any rule code; shapes the parser rejects and the P9999 answer are outside' % (n, len(VT), ', '.join(VT)))
+    for part in par_map(_k5_job, TP.jobs_for(VT)): merge_part(kr, part)
+    P = ctx.program()
+    kr.functions = fn_paths(P, getattr(kr, '_enc', set()))[:150]
+    kr.exhaustive = True
+    kr.outside = ['programs other than the template shapes']
+
+KERNELS = [k1, k4, k3, k5]
